@@ -360,6 +360,31 @@ def shared_node_scripts(rng, n):
     return out
 
 
+def renamed_function_scripts(rng, tier):
+    """the function names CallFunction.generate_js rewrites (new -> _movie.newMember / _movie.newScript depending on the FIRST
+    argument, birth, go, cast, continue) with every arrangement of argument kinds for 0..3 arguments, in statement and in expression
+    position (seeded change C04-m7: a decision taken on the wrong end of the argument list showed only with >= 2 arguments)"""
+    kinds = [["y", "bitmap"], ["i", 5], ["s", S("Bug")], ["l", "x"], ["c", "script", ["s", S("Bug")]]]
+    out, hs = [], []
+    import itertools
+    for fn in ("new", "birth", "cast", "myFunc"):
+        for n in (0, 1, 2, 3):
+            combos = list(itertools.product(kinds, repeat=n))
+            if tier == "quick" and n == 3:
+                combos = [c for c in combos if c[1][0] == "i"]
+            for args in combos:
+                if fn == "cast" and n != 1:
+                    continue
+                body = [["set", ["l", "x"], ["c", fn] + [list(a) for a in args]]]
+                if fn in ("new", "birth", "myFunc"):
+                    body.append(["call", fn] + [list(a) for a in args])
+                hs.append(body)
+    for i in range(0, len(hs), 8):
+        out.append(dict(tree=["script", ["factory", "-"], ["props"], ["globals"]] +
+                        [["on", "h%d" % j, ["v"]] + b for j, b in enumerate(hs[i:i + 8])], pre=[], kind="renamed-functions"))
+    return out
+
+
 def _p(body, name="probe", params=("a",), kind="plain", props=(), hdr_globals=()):
     tree = ["script", ["factory", "-"], ["props"] + list(props), ["globals"] + list(hdr_globals), ["on", name, list(params)] + body]
     return dict(tree=with_kind(tree, kind, None) if kind != "plain" else tree, pre=[], kind="probe")
@@ -437,6 +462,7 @@ def cases(rng, tier):
     scripts += c02.wide_scripts(rng)
     scripts += tell_scripts(rng, dict(quick=150, thorough=3000, search=1500)[tier])
     scripts += shared_node_scripts(rng, dict(quick=120, thorough=2500, search=1200)[tier])
+    scripts += renamed_function_scripts(rng, tier)
     scripts += L.border_scripts(rng, tier)
     for sc in scripts:
         t = sc["tree"]
